@@ -71,6 +71,10 @@ class Crowd(Part):
                                 timeout=3000))
             runs.append(tlc.run("Selection", MC_CFG % (3, "0, 1", 4), ctx.scratch, workers=16, name="Selection-mc4-3obj",
                                 timeout=3000))
+        # TLAPS side-car (not the deciding mechanism): rank-first survivor selection is elitist for populations of any size
+        proved = tlc.tlapm("proofs/SelectionLaws.tla", ctx.scratch)
+        ctx.notes.append("tlapm proofs/SelectionLaws.tla: %d obligations proved (rank first => elitist, generational elitism, a best design "
+                         "survives; arbitrary population size)" % proved)
         return runs
 
     def cases(self, ctx):
